@@ -83,11 +83,11 @@ pub mod sync {
         pub uninterp spec fn sender_id<T>(s: &Sender<T>) -> int;
         pub uninterp spec fn receiver_id<T>(r: &Receiver<T>) -> int;
         /// delivers to its paired receiver, or returns the value if that was dropped
-        impl<T> Sender<T> { #[verifier::external_body] pub fn send(self, t: T) -> Result<(), T> { unimplemented!() } }
+        impl<T> Sender<T> { #[verifier::external_body] pub fn send(self, t: T) -> Result<(), T> requires crate::sync::mpsc::chan_item_ok(&t) { unimplemented!() } }
         /// yields the value sent by the paired sender, `Err` if the sender was dropped without sending
         impl<T> VxFuture for Receiver<T> {
             type Output = Result<T, error::RecvError>;
-            open spec fn resolves_to(&self, out: &Result<T, error::RecvError>) -> bool { true }
+            open spec fn resolves_to(&self, out: &Result<T, error::RecvError>) -> bool { *out matches Ok(v) ==> crate::sync::mpsc::chan_item_ok(&v) }
             #[verifier::external_body] fn vx_await(self) -> Result<T, error::RecvError> { unimplemented!() }
         }
         #[verifier::external_body] pub fn channel<T>() -> (r: (Sender<T>, Receiver<T>)) ensures sender_id(&r.0) == receiver_id(&r.1) { unimplemented!() }
